@@ -189,6 +189,14 @@ func New(o Options) *Rig {
 			time.Sleep(300 * time.Millisecond)
 			http.Error(w, "no websocket here", http.StatusForbidden)
 			return
+		case strings.HasPrefix(rq.URL.Path, "/hang/"):
+			// a backend that takes the upgrade request and does not answer it for 70 s (hung process, blocked handler)
+			select {
+			case <-time.After(70 * time.Second):
+			case <-rq.Context().Done():
+			}
+			http.Error(w, "too late", http.StatusForbidden)
+			return
 		case strings.HasPrefix(rq.URL.Path, "/redir-rel/"):
 			w.Header().Set("Location", "/ws/after-redirect")
 			w.WriteHeader(302)
